@@ -87,8 +87,10 @@ type Job struct {
 	Cont []Step `json:"cont,omitempty"`
 	// Soft: a regression scenario from the corpus; if its recorded crash images
 	// no longer fit the I/O the current tree performs it is skipped, not an error.
-	Soft bool `json:"soft,omitempty"`
-	Tag  string `json:"tag,omitempty"`
+	Chain    bool   `json:"chain,omitempty"` // orchestration hints (used by lib/walengine.py only)
+	ChainCap int    `json:"chainCap,omitempty"`
+	Soft     bool   `json:"soft,omitempty"`
+	Tag      string `json:"tag,omitempty"`
 	// Real: run on the production fs.FS + metadb.BoltMetaDB in a scratch directory.
 	Real bool `json:"real,omitempty"`
 	// SnapshotEach (real mode): after every step copy the directory (the image a process
@@ -104,8 +106,8 @@ type Out struct {
 	// statistics
 	Runs, Forks, Events, MaterialiseErrors int
 	SoftSkipped                            int
-	Panics                                int
-	Notes                                 []string
+	Panics                                 int
+	Notes                                  []string
 }
 
 func (o *Out) obs(m map[string]any) {
@@ -145,7 +147,7 @@ type run struct {
 	dead         bool // open failed / panic: no further steps
 	forkNode     *Fork
 	lastMark     int
-	dir          string // real mode: the directory
+	dir          string    // real mode: the directory
 	held         []heldVal // values returned by Get, re-compared after every later step (C08: copy out of the txn)
 	fmtSegs      map[string]*segRec
 	lastBatchSeg string
